@@ -487,6 +487,14 @@ def run_core(ctx: Check, pid: str, n_quick: int = 110, n_thorough: int = 1600):
                 r["design"].setdefault("tag", "corpus")
                 results.append(r)
                 ctx.count("cases_corpus")
+    # directed designs: the minimal shape of every known breaking change of the core (directed.py), all valuations
+    from .directed import directed
+
+    for d in directed(pid):
+        r = eval_design(d, pid, n_random)
+        r["design"], r["stats"], r["t_gen"], r["t_eval"] = d, designgen.stats(d), 0, 0
+        results.append(r)
+        ctx.count("cases_directed")
     # The Lean driver processes are started now and fed while the real code is still being run.
     lean_procs = 1 if ctx.quick else procs
     stream = LeanStream(lean_procs)
